@@ -274,7 +274,12 @@ def run(ctx):
                  "free_switch_cost": 1},
         "budget": 3000 if ctx.quick else 30000,
     } for params in scenario_params(ctx.tier)]
-    ctx.pmap(H.shard, specs, cost=lambda spec: len(spec["params"]["phases"]))
+    if not ctx.quick:
+        specs += H.line_variants(
+            specs, lambda p: len(p["phases"]) == 1 and p["phases"][0]["stop_at"] in (0.0, 0.05)
+            and p["phases"][0]["population"] in ("none", "submitter"))
+    ctx.pmap(H.shard, specs, cost=lambda spec: len(spec["params"]["phases"])
+             + 2 * bool(spec["opts"].get("line_points")))
     H.finish(
         ctx, specs,
         rule="histories of 1-2 runner instances (+ a final fresh one) over end kinds (shutdown "
